@@ -86,7 +86,9 @@ DiffDecl(p, rec, idxs, o, pass) ==
 Resolve(rec, f, T) ==
   LET imps == SelectSeq(f.imports, LAMBDA im : im.name = T)
   IN  IF imps # <<>> THEN imps[1].pkg
-      ELSE IF \E j \in DOMAIN rec.files : Selected(rec.files[j]) /\ rec.files[j].unit.name = T /\ rec.files[j].pkg = f.pkg
+      \* (a processed file that is not part of the identifier set handed to the pass - rec.outsider - is no project class
+      \* to the pass: receivers of its type are then among the unresolvable, free ones)
+      ELSE IF \E j \in DOMAIN rec.files : j # rec.outsider /\ Selected(rec.files[j]) /\ rec.files[j].unit.name = T /\ rec.files[j].pkg = f.pkg
            THEN f.pkg ELSE ""
 
 \* declared type of the receiver by Java scoping: innermost of local (declared earlier, in scope) / parameter / field (declared earlier)
